@@ -329,6 +329,18 @@ def r4_accidentals(ctx):
         for q, val in _callback_values(ctx, ae, G.substitute(cbv, env_ae)):
             okcb = okcb or (isinstance(val, ast.Call) and F.is_name(val.func, 'pitch_to_gkern_string') and len(val.args) == 2
                             and src(val.args[0]) == f"PitchImporterFactory.create('kern').import_pitch({q})" and src(val.args[1]) == 'clef')
+    # every path of the agnostic tokenizer hands the conversion to the token: no token is exported without it
+    n_ret = 0
+    bare = []
+    for cond, val, sp in symex.returns(ae):
+        n_ret += 1
+        exps = [c for c in ast.walk(val) if isinstance(c, ast.Call) and isinstance(c.func, ast.Attribute) and c.func.attr == 'export']
+        if not exps or not all(any(k.arg == 'convert_pitch_to_agnostic' for k in c.keywords) for c in exps):
+            bare.append(G.show(cond)[:80])
+    ctx.check(not bare and n_ret > 0, 'R4', ae.loc, ae.qualname, 'callback-on-every-path',
+              f'every path of AEKernTokenizer.tokenize exports the token with the pitch-conversion callback ({n_ret} paths)',
+              f'under `{bare[0] if bare else None}` the token is exported without the conversion callback: a note whose own category is not in '
+              f'the selection (include=[PITCH, DURATION, ...] without NOTE_REST) keeps its kern letters while chord notes are converted')
     ctx.check(okcb, 'R4', ae.loc, ae.qualname, 'callback-shape',
               'the callback converts the sub-token text with the Humdrum importer and the clef in force')
 
